@@ -584,15 +584,13 @@ impl fmt::Display for CellBuffer {
 
 impl From<&str> for CellBuffer {
     fn from(input: &str) -> Self {
-        let css_styles = if let Some(loc) = input.find("# Legend:") {
-            if let Ok(css_styles) = parser::parse_css_legend(&input[loc..]) {
-                Some((loc, css_styles))
-            } else {
-                None
-            }
-        } else {
-            None
-        };
+        // the legend starts at the first `# Legend:` that parses as one: the same words
+        // inside of the drawing, e.g. in a note, do not hide the real header further down
+        let css_styles = input.match_indices("# Legend:").find_map(|(loc, _)| {
+            parser::parse_css_legend(&input[loc..])
+                .ok()
+                .map(|css_styles| (loc, css_styles))
+        });
         if let Some((loc, css_styles)) = css_styles {
             let mut cell_buffer =
                 CellBuffer::from(StringBuffer::from(&input[..loc]));
